@@ -9,6 +9,7 @@ import (
 	"os"
 	"path/filepath"
 	"regexp"
+	"runtime"
 	"strings"
 	"testing"
 	"testing/synctest"
@@ -25,6 +26,11 @@ func runBubble(t *testing.T, f func(), res *Result) {
 			s := fmt.Sprint(p)
 			if strings.Contains(s, "deadlock") || strings.Contains(s, "blocked goroutines") {
 				res.Leaked = true
+				if os.Getenv("VERIF_DEBUG_LEAK") != "" {
+					buf := make([]byte, 1<<20)
+					buf = buf[:runtime.Stack(buf, true)]
+					fmt.Fprintf(os.Stderr, "LEAK seed=%d: %s\n%s\n", res.Spec.Seed, s, buf)
+				}
 				return
 			}
 			if res.Trouble == "" {
